@@ -656,7 +656,7 @@ theorem perase_err (t : PTier Int) (hwf : t.WF) (a b : Int) (sh : Bool) (e : Err
     split at h
     · exact pnew_not_err _ _ _ _ _ _ h
     · simp [pure, Except.pure] at h
-  · rw [C07.perase_rejects t hwf a b sh (by omega)] at h
+  · rw [C07.perase_rejects t a b sh (by omega)] at h
     simp only [Except.error.injEq] at h
     exact ⟨h.symm, by omega⟩
 
